@@ -457,3 +457,50 @@ def replay_pdist():
         if abs(tot - 1) > 1e-6:
             return f"lossy circuit (trial {trial}, rng seed 1): slos distribution sums to {tot:.6f}"
     return None
+
+
+# ----------------------------------------------------------------------------------------------- machine integers (native)
+def unit_bigint(tier="quick", seed=0):
+    """Occupation factorials beyond 64 bits (13! * 13! and 21! exceed 2**64): the exact-arithmetic runs above cannot see how numpy
+    treats such Python integers, so the same clauses are checked natively on one-mode circuits where the answer is known in closed
+    form: amplitude of |k> -> |k> through a phase shifter phi is exp(i k phi); the distribution is {|k>: 1} on both backends."""
+    import cmath
+    import lightworks as lw
+    from lightworks import emulator
+    fails, n = [], 0
+    phi = 0.1
+    for k in (12, 13, 20, 21):
+        c = lw.Circuit(1)
+        c.ps(0, phi)
+        n += 1
+        try:
+            a = emulator.Simulator(c).simulate(lw.State([k]), lw.State([k])).array[0, 0]
+            if abs(a - cmath.exp(1j * k * phi)) > 1e-9:
+                fails.append((dict(photons=k, what="simulator"), f"amplitude {a}, expected exp(i*{k}*{phi})"))
+        except Exception as e:  # noqa: BLE001
+            fails.append((dict(photons=k, what="simulator"), f"Simulator raised {type(e).__name__}: {e}"))
+        for be in ("permanent", "slos"):
+            n += 1
+            try:
+                d = {tuple(s.s): p for s, p in emulator.Sampler(c, lw.State([k]), backend=be).probability_distribution.items()}
+                if set(d) != {(k,)} or abs(d[(k,)] - 1) > 1e-6:
+                    fails.append((dict(photons=k, backend=be), f"distribution {d}, expected {{|{k}>: 1}}"))
+            except Exception as e:  # noqa: BLE001
+                fails.append((dict(photons=k, backend=be), f"Sampler[{be}] raised {type(e).__name__}: {str(e)[:150]}"))
+    # two bunched modes whose factorials fit 64 bits one by one but not as a product (13! * 13!): the slos distribution is still normalised
+    c = lw.Circuit(2)
+    c.bs(0)
+    n += 1
+    try:
+        tot = sum(emulator.Sampler(c, lw.State([13, 13]), backend="slos").probability_distribution.values())
+        if abs(tot - 1) > 1e-6:
+            fails.append((dict(input=[13, 13], backend="slos"), f"distribution sums to {tot}"))
+    except Exception as e:  # noqa: BLE001
+        fails.append((dict(input=[13, 13], backend="slos"), f"Sampler[slos] raised {type(e).__name__}: {str(e)[:150]}"))
+    o = dict(name="lightworks/emulator/backend:factorial-normalisation#bnd.large-occupations", kind="bnd", cases=n, result="bounded-fail" if fails else "bounded-pass",
+             backend="native floats", ms=0, note="one-mode circuits with 12, 13, 20, 21 photons: amplitude exp(i k phi), distribution {|k>: 1} on both backends (factorials beyond 64 bits)")
+    if fails:
+        o["failing_cases"] = [str(f[0]) for f in fails]
+        o["model"] = dict(case=fails[0][0], observed=fails[0][1], n_failing=len(fails))
+        o["replayed"] = f"{len(fails)} of {n} cases fail; first {fails[0][0]}: {fails[0][1]}"
+    return dict(status="ok", obligations=[o], summary=f"large occupations: {n} cases")
